@@ -207,7 +207,16 @@ where
         C: Collect + for<'a> LookupSpan<'a>,
     {
         let mut timestamp = String::new();
-        self.timer.format_time(&mut Writer::new(&mut timestamp))?;
+        // If getting the timestamp failed, don't bail --- only bail on
+        // formatting errors (the other formats do the same).
+        if self
+            .timer
+            .format_time(&mut Writer::new(&mut timestamp))
+            .is_err()
+        {
+            timestamp.clear();
+            timestamp.push_str("<unknown time>");
+        }
 
         #[cfg(feature = "tracing-log")]
         let normalized_meta = event.normalized_metadata();
